@@ -539,6 +539,46 @@ func (wg *WeightedAuthorizationModelGraph) calculateNodeWeightWithMaxStrategy(no
 	return nil
 }
 
+// operandWeights returns the weights of the operands of an operator node, in the order of the operands.
+// A direct assignment is drawn with one edge per type restriction and a tuple to userset with one edge per parent type:
+// a type reaches such an operand when it reaches any of its edges, with the largest of their weights.
+// Every other edge is an operand of its own.
+func (wg *WeightedAuthorizationModelGraph) operandWeights(edges []*WeightedAuthorizationModelEdge) []map[string]int {
+	operands := make([]map[string]int, 0, len(edges))
+	positions := make(map[string]int)
+
+	for _, edge := range edges {
+		operandKey := ""
+
+		switch edge.edgeType {
+		case DirectEdge:
+			operandKey = "direct"
+		case TTUEdge:
+			_, computedRelation, _ := strings.Cut(edge.to.uniqueLabel, "#")
+			operandKey = "ttu:" + edge.tuplesetRelation + "#" + computedRelation
+		case RewriteEdge, ComputedEdge:
+		}
+
+		position, found := positions[operandKey]
+		if operandKey == "" || !found {
+			position = len(operands)
+			operands = append(operands, make(map[string]int))
+
+			if operandKey != "" {
+				positions[operandKey] = position
+			}
+		}
+
+		for key, value := range edge.weights {
+			if current, ok := operands[position][key]; !ok || value > current {
+				operands[position][key] = value
+			}
+		}
+	}
+
+	return operands
+}
+
 // calculateNodeWeightWithMixedStrategy is a mixed weight strategy used for exclusion node (A but not B).
 // For all A edges, we take all the types for all the edges and get the max value
 // if more than one edge have the same type in their weights.
@@ -552,13 +592,13 @@ func (wg *WeightedAuthorizationModelGraph) calculateNodeWeightWithMixedStrategy(
 		return fmt.Errorf("%w: %s node does not have any terminal type to reach to", ErrInvalidModel, node.uniqueLabel)
 	}
 
-	for idx, edge := range edges {
-		for key, value := range edge.weights {
+	for idx, operand := range wg.operandWeights(edges) {
+		for key, value := range operand {
 			if _, ok := weights[key]; !ok {
-				if idx != len(edges)-1 {
-					// This is the A edge.  We take the max weight of all key
+				if idx == 0 {
+					// This is the A operand.  We take the max weight of all key
 					weights[key] = value
-				} // otherwise, B edge requires weight to be present in A. Otherwise, we will ignore.
+				} // otherwise, the B operand requires weight to be present in A. Otherwise, we will ignore.
 			} else {
 				weights[key] = int(math.Max(float64(weights[key]), float64(value)))
 			}
@@ -582,19 +622,18 @@ func (wg *WeightedAuthorizationModelGraph) calculateNodeWeightWithEnforceTypeStr
 		return fmt.Errorf("%w: %s node does not have any terminal type to reach to", ErrInvalidModel, node.uniqueLabel)
 	}
 
-	for _, edge := range edges {
-		// for but not ensure that the first edge is the left edge
-		// the first time, take the weights of the edge
-		if len(weights) == 0 {
-			for key, value := range edge.weights {
+	for idx, operand := range wg.operandWeights(edges) {
+		// the first operand gives the candidate types
+		if idx == 0 {
+			for key, value := range operand {
 				weights[key] = value
 			}
 			continue
 		}
 
-		// for AndOperation, remove the key if it is not in the edge, not all edges return the same type
+		// for AndOperation, remove the key if it is not in the operand, not all operands return the same type
 		for key := range weights {
-			if value, ok := edge.weights[key]; !ok {
+			if value, ok := operand[key]; !ok {
 				delete(weights, key)
 			} else {
 				weights[key] = int(math.Max(float64(weights[key]), float64(value)))
